@@ -3,10 +3,15 @@ package sem
 // Harness for C17 (DESIGN 5/C17), semaphore level: the real resizable Semaphore is driven and its
 // behaviour is logged as events of specs/ConnCap_Trace.tla (the contract of a connection cap).
 //   TestVerifC17SemTrace    - concurrent acquirers/releasers and a resizer (sequential or
-//                             overlapping SetMaxCount calls); conservative counter (TV)
+//                             overlapping SetMaxCount calls, also with the value already configured;
+//                             in a third of the traces the holders keep their tokens across the
+//                             whole burst of calls); conservative counter (TV)
 //   TestVerifC17SemOverlap  - overlapping resizes taken from TLC behaviours of specs/ConnCap.tla:
 //                             (cap, tokens held, waiters, resize values, order of the background
-//                             adjustments).  The order is forced through the gate hook
+//                             adjustments); the cases cover every sequence of call kinds (grow,
+//                             shrink, shrink below the usage, same value).  A call that completes
+//                             without a background adjustment has no gate slot; its place in the
+//                             order is empty.  The order is forced through the gate hook
 //                             verifGate("sem.resize") when the tree has it (c17_gate_test.go), else
 //                             it is provoked with GOMAXPROCS(1) (the newest goroutine runs first).
 // The harness never judges: it logs, TLC validates the log against the contract.
@@ -176,8 +181,20 @@ func TestVerifC17SemTrace(t *testing.T) {
 		iters := 3 + rng.Intn(8)
 		nrz := rng.Intn(4)
 		overlap := rng.Intn(2) == 0
-		g.reset(cap0, vx.M{"level": "sem", "trace": ti, "overlap": overlap})
+		// hold: long-lived holders - every worker keeps the first token it gets until the resizer has
+		// issued all its calls (connections that stay open across a burst of reloads), so that a shrink
+		// below the usage stays blocked while the later calls are made.  Resizes overlap then.
+		hold := rng.Intn(3) == 0
+		if hold {
+			overlap = true
+			nrz = 2 + rng.Intn(3)
+		}
+		g.reset(cap0, vx.M{"level": "sem", "trace": ti, "overlap": overlap, "hold": hold})
 		s := NewSem(uint32(cap0))
+		holdUntil := make(chan struct{})
+		if !hold {
+			close(holdUntil)
+		}
 		var wg sync.WaitGroup
 		seeds := make([]int64, workers)
 		for i := range seeds {
@@ -193,6 +210,9 @@ func TestVerifC17SemTrace(t *testing.T) {
 					g.accInv(p)
 					s.Acquire()
 					g.acc(p)
+					if k == 0 {
+						<-holdUntil
+					}
 					switch r.Intn(3) {
 					case 0:
 						runtime.Gosched()
@@ -212,7 +232,33 @@ func TestVerifC17SemTrace(t *testing.T) {
 		gaps := make([]int, nrz)
 		for i := range caps {
 			caps[i] = 1 + rng.Intn(6)
+			if hold {
+				caps[i] = 1 + rng.Intn(cap0) // never above the initial cap: the bound of the contract is the tightest
+			}
+			if rng.Intn(4) == 0 || (hold && rng.Intn(4) == 0) {
+				// a call with the value already configured (what every reload of an HTTPServer that
+				// leaves maxConnections alone does)
+				caps[i] = cap0
+				if i > 0 {
+					caps[i] = caps[i-1]
+				}
+			}
 			gaps[i] = rng.Intn(400)
+			if hold {
+				gaps[i] = rng.Intn(60)
+			}
+		}
+		if hold {
+			// let the holders take their tokens and the others queue up
+			for k := 0; k < 100; k++ {
+				g.mu.Lock()
+				o := g.open
+				g.mu.Unlock()
+				if o >= cap0 || o >= workers {
+					break
+				}
+				time.Sleep(100 * time.Microsecond)
+			}
 		}
 		var dwg sync.WaitGroup
 		final := cap0
@@ -228,6 +274,10 @@ func TestVerifC17SemTrace(t *testing.T) {
 			// overlapping mode, or a resize that does not complete although the workers keep releasing
 			dwg.Add(1)
 			go func() { defer dwg.Done(); <-done; g.rzdone(id) }()
+		}
+		if hold {
+			time.Sleep(time.Duration(500+rng.Intn(3000)) * time.Microsecond) // the adjustments that can run do
+			close(holdUntil)
 		}
 		if !c17WaitGroup(&wg, c17Patience()) {
 			// workers that only acquire, yield and release do not get through: the semaphore is stuck.
@@ -292,6 +342,41 @@ func (gt *c17Gate) waitArrival(k int, d time.Duration) bool {
 		}
 		select {
 		case <-gt.notify:
+		case <-time.After(2 * time.Millisecond):
+		}
+	}
+}
+
+func (gt *c17Gate) count() int {
+	gt.mu.Lock()
+	defer gt.mu.Unlock()
+	return len(gt.arrived)
+}
+
+// waitArrivalOrDone waits until the k-th tuner is parked at the gate (returns k) or the call's done
+// channel is closed without a tuner having come to the gate (returns 0: the call was completed
+// without a background adjustment - an implementation is free to do that, e.g. for a call that
+// changes nothing; its tuner steps in a schedule are then empty).  -1 after the deadline.
+func (gt *c17Gate) waitArrivalOrDone(k int, done <-chan struct{}, d time.Duration) int {
+	deadline := time.Now().Add(d)
+	for {
+		if gt.count() >= k {
+			return k
+		}
+		select {
+		case <-done:
+			if gt.count() >= k {
+				return k
+			}
+			return 0
+		default:
+		}
+		if time.Now().After(deadline) {
+			return -1
+		}
+		select {
+		case <-gt.notify:
+		case <-done:
 		case <-time.After(2 * time.Millisecond):
 		}
 	}
@@ -370,18 +455,25 @@ func TestVerifC17SemOverlap(t *testing.T) {
 		time.Sleep(3 * time.Millisecond) // let the waiters queue (only the realisation of the schedule depends on it)
 		dones := make([]chan struct{}, len(rzs))
 		ids := make([]int, len(rzs))
+		slots := make([]int, len(rzs)) // gate slot of the i-th call's tuner; 0: completed without one
 		for i, n := range rzs {
 			ids[i] = g.rz(vx.Int(n))
+			next := gt.count() + 1
 			dones[i] = s.SetMaxCount(int64(vx.Int(n)))
-			if hook && !gt.waitArrival(i+1, 2*time.Second) {
-				g.note(vx.M{"k": "note", "case": ci, "what": "tuner did not reach the gate"})
+			if hook {
+				slots[i] = gt.waitArrivalOrDone(next, dones[i], 2*time.Second)
+				if slots[i] < 0 {
+					g.note(vx.M{"k": "note", "case": ci, "what": "tuner did not reach the gate"})
+				}
 			}
 		}
 		if hook {
 			gated++
 			for _, k := range order {
-				gt.release(vx.Int(k))
-				c17WaitDone(dones[vx.Int(k)-1], 3*time.Millisecond)
+				if i := vx.Int(k) - 1; i >= 0 && i < len(slots) && slots[i] > 0 {
+					gt.release(slots[i])
+					c17WaitDone(dones[i], 3*time.Millisecond)
+				}
 			}
 			gt.releaseAll()
 		} else {
